@@ -29,6 +29,10 @@ func main() {
 			fmt.Println(err)
 			os.Exit(2)
 		}
+		if parts[0] == "push" {
+			rules.DebugPush(p, parts[1])
+			return
+		}
 		rules.DebugRun(p, parts[0], parts[1], parts[2])
 		return
 	}
